@@ -313,3 +313,70 @@ def _rename_params(fn, kw: set[str]) -> int:
         elif isinstance(x, ast.arg) and x.arg in names and x in params:
             x.arg = names[x.arg]
     return len(names)
+
+
+# ------------------------------------------------------------------------------------------------ fifth twin: inverted ifs
+class _IfInverter(ast.NodeTransformer):
+    """`if c: A else: B`  →  `if not (c): B else: A` for every two-armed `if` that is not part of an elif chain (neither an
+    elif itself nor followed by one), inside functions only.  `not (a is b)` style double negations are written out as the
+    opposite comparison where there is one, so the result reads like code a person would write."""
+
+    def __init__(self):
+        self.count = 0
+        self._elif: set[int] = set()
+
+    _OPP = {ast.Is: ast.IsNot, ast.IsNot: ast.Is, ast.Eq: ast.NotEq, ast.NotEq: ast.Eq, ast.In: ast.NotIn, ast.NotIn: ast.In,
+            ast.Lt: ast.GtE, ast.GtE: ast.Lt, ast.Gt: ast.LtE, ast.LtE: ast.Gt}
+
+    def _negate(self, t):
+        if isinstance(t, ast.UnaryOp) and isinstance(t.op, ast.Not):
+            return t.operand
+        if isinstance(t, ast.Compare) and len(t.ops) == 1 and type(t.ops[0]) in (ast.Is, ast.IsNot, ast.Eq, ast.NotEq, ast.In, ast.NotIn):
+            return ast.Compare(left=t.left, ops=[self._OPP[type(t.ops[0])]()], comparators=t.comparators)
+        return ast.UnaryOp(op=ast.Not(), operand=t)
+
+    def visit_If(self, node: ast.If):
+        if len(node.orelse) == 1 and isinstance(node.orelse[0], ast.If):
+            self._elif.add(id(node.orelse[0]))
+            chain_head = True
+        else:
+            chain_head = False
+        is_elif = id(node) in self._elif
+        self.generic_visit(node)
+        if node.orelse and not chain_head and not is_elif and not any(isinstance(x, ast.NamedExpr) for x in ast.walk(node.test)):
+            node.test, node.body, node.orelse = self._negate(node.test), node.orelse, node.body
+            self.count += 1
+        return node
+
+
+def invert_ifs_tree(root: str) -> dict:
+    """Fifth behaviour-preserving rewrite: the two arms of every plain if/else inside a function are swapped and the test is
+    negated.  What the library does is unchanged; rules that read a guard in one polarity only, or that take "the body" of an
+    `if` for "the case where the test holds", lose their footing."""
+    base = os.path.join(root, "src", "onnx_ir")
+    stats = {"modules": 0, "ifs": 0}
+    for dp, _dn, fns in os.walk(base):
+        if "_thirdparty" in dp:
+            continue
+        for fn in fns:
+            if not fn.endswith(".py") or fn.endswith("_test.py"):
+                continue
+            path = os.path.join(dp, fn)
+            with open(path, encoding="utf-8") as fh:
+                src = fh.read()
+            tree = ast.parse(src)
+            n = 0
+            for node in ast.walk(tree):
+                if isinstance(node, (ast.FunctionDef, ast.AsyncFunctionDef)):
+                    inv = _IfInverter()
+                    node.body = [inv.visit(st) for st in node.body]
+                    n += inv.count
+            if n:
+                ast.fix_missing_locations(tree)
+                out = ast.unparse(tree)
+                compile(out, path, "exec")
+                with open(path, "w", encoding="utf-8") as fh:
+                    fh.write(out + "\n")
+                stats["modules"] += 1
+                stats["ifs"] += n
+    return stats
